@@ -2430,3 +2430,36 @@ M("C04", "no-dummy-start-for-known-model", DI,
   "        add_dummy_start=add_dummy_start,\n    )\n    return update_and_create_events_from_graph_solutions(",
   "        add_dummy_start=add_dummy_start and not events,\n    )\n    return update_and_create_events_from_graph_solutions(", "R4.7",
   "jobs learned on top of a loaded model get no dummy start link (seed C04-j)")
+
+# ============================================================ walkspec tables (R1.16-R1.19 / R5.16)
+for _P, _R in (("C01", "R1.17"), ("C05", "R5.16")):
+    M(_P, "block-paths-alias-node-logic", WALK,
+      "        self.paths = logic_node.outgoing_logic.copy()",
+      "        self.paths = logic_node.outgoing_logic", _R,
+      "popping a finished path removes the alternative from the node")
+    M(_P, "block-kill-flags-alias", WALK,
+      "        self.loop_kill_paths = logic_node.is_loop_kill_path.copy()",
+      "        self.loop_kill_paths = logic_node.is_loop_kill_path", _R,
+      "loop-kill flags shared with the node")
+for _P, _R in (("C01", "R1.16"), ("C05", "R5.16")):
+    M(_P, "branch-marked-on-incoming", NODE,
+      '''            if direction == "outgoing":
+                root_node.update_event_types(PUMLEvent.BRANCH)''',
+      '''            if direction != "outgoing":
+                root_node.update_event_types(PUMLEvent.BRANCH)''', _R,
+      "BRANCH handled for the wrong direction")
+for _P, _R in (("C01", "R1.18"), ("C05", "R5.16")):
+    M(_P, "xor-check-inverted", WALK,
+      '        if self.logic_node.operator not in ["AND", "OR"]:\n            return True',
+      '        if self.logic_node.operator in ["AND", "OR"]:\n            return True', _R,
+      "AND / OR merges accepted anywhere")
+    M(_P, "impossible-flag-not-set", WALK,
+      "                    self.impossible_and_or_merges[index] = True\n",
+      "                    pass\n", _R, "rejected AND / OR merge not flagged")
+for _P, _R in (("C01", "R1.19"), ("C05", "R5.16")):
+    M(_P, "merge-flag-from-counts", CNG,
+      '''        if calculate_logic_gates(
+            node.eventsets_incoming
+        ).operator == Logic_operator.BRANCH:''',
+      '''        if len(node.eventsets_incoming) > 1:''', _R,
+      "MERGE decided from the number of predecessor sets (seed C01-f)")
